@@ -877,6 +877,60 @@ impl<'a> Gen<'a> {
                 .count();
             self.prog.items.insert(pos, Item::Alias(name, target));
         }
+        // builtin aliases: an annotation (or a component of one) whose type is the documented
+        // definition of a builtin alias is sometimes written with one of the alias names
+        if self.rng.chance(1, 2) {
+            let mut rng = self.rng.clone();
+            fn walk(t: &mut Ty, rng: &mut Rng) {
+                if !matches!(t, Ty::Alias(_)) && rng.chance(1, 2) {
+                    let names: Vec<&str> = BUILTIN_ALIASES.iter().copied().filter(|n| builtin_alias(n).as_ref() == Some(&*t)).collect();
+                    if !names.is_empty() {
+                        *t = Ty::Alias(rng.pick(&names).to_string());
+                        return;
+                    }
+                }
+                match t {
+                    Ty::Tuple(ts) => ts.iter_mut().for_each(|x| walk(x, rng)),
+                    Ty::Array(x, _) | Ty::List(x, _) | Ty::Option(x) => walk(x, rng),
+                    Ty::Either(l, r) => {
+                        walk(l, rng);
+                        walk(r, rng);
+                    }
+                    _ => {}
+                }
+            }
+            for item in self.prog.items.iter_mut() {
+                if let Item::Alias(_, t) = item {
+                    walk(t, &mut rng);
+                }
+            }
+            for f in self.prog.funcs_mut() {
+                for (_, t) in f.params.iter_mut() {
+                    walk(t, &mut rng);
+                }
+                if let Some(t) = &mut f.ret {
+                    walk(t, &mut rng);
+                }
+                f.body.visit_mut(&mut |e| match e {
+                    Expr::Block(stmts, _) => {
+                        for s in stmts.iter_mut() {
+                            if let Stmt::Let(_, t, _) = s {
+                                walk(t, &mut rng);
+                            }
+                        }
+                    }
+                    Expr::Match(_, arms) => {
+                        for a in arms.iter_mut() {
+                            if let MatchPat::Some_(_, t) | MatchPat::Left(_, t) | MatchPat::Right(_, t) = &mut a.pat {
+                                walk(t, &mut rng);
+                            }
+                        }
+                    }
+                    _ => {}
+                });
+            }
+            self.rng = rng;
+        }
     }
 }
 
